@@ -11,7 +11,7 @@ from engines.plugin_scratch import scratch_dir, write_entry_points, write_module
 
 FIXTURES = '''
 """Fixture pools / decorators / controllers that report what happens to them to $VERIF_EVENTS"""
-import asyncio, json, os, threading, time
+import asyncio, json, os, sys, threading, time
 import trio
 from cobald.interfaces import Pool, PoolDecorator, Controller
 from cobald.daemon import service
@@ -75,6 +75,10 @@ class _Outcome(Exception):
     pass
 
 
+class _BaseOutcome(BaseException):
+    pass
+
+
 import logging as _logging
 
 
@@ -102,6 +106,10 @@ def _end(self):
     emit("failing", self.fx_name, kind=self.fail_kind)
     if self.fail_kind == "raise":
         raise _Outcome("service %s fails on purpose" % self.fx_name)
+    if self.fail_kind == "base":
+        raise _BaseOutcome("service %s fails on purpose with a BaseException" % self.fx_name)
+    if self.fail_kind == "exit":
+        sys.exit(3)
     return "service %s returns a value" % self.fx_name
 
 
@@ -306,6 +314,7 @@ class Daemon:
         self.scratch = ensure_fixtures()
         self.dir = tempfile.mkdtemp(prefix="daemon-", dir=self.scratch)
         self.config = os.path.join(self.dir, config_name)
+        os.makedirs(os.path.dirname(self.config), exist_ok=True)  # the name may place the file in a sub-directory
         if create:
             with open(self.config, "w") as f:
                 f.write(config_text)
